@@ -48,7 +48,7 @@ class BigMapType(MapType, prim='big_map', args_len=2):
             return f'{{{", ".join(elements)}}}'
 
     def __deepcopy__(self, memodict):
-        return self.duplicate()
+        return self._clone()
 
     def __getitem__(self, key_obj) -> Optional[MichelsonType]:  # type: ignore
         key = self.args[0].from_python_object(key_obj)
@@ -203,6 +203,8 @@ class BigMapType(MapType, prim='big_map', args_len=2):
 
     def get(self, key: MichelsonType, dup=True) -> Optional[MichelsonType]:
         self.args[0].assert_type_equal(type(key))
+        if dup:
+            assert self.args[1].is_duplicable(), f'use GET_AND_UPDATE instead'
         val = next((v for k, v in self if k == key), Undefined)  # search in diff
         if val is Undefined:
             assert self.context, f'context is not attached'
@@ -232,6 +234,10 @@ class BigMapType(MapType, prim='big_map', args_len=2):
         return forge_script_expr(key.pack(legacy=True))
 
     def duplicate(self):
+        assert self.is_duplicable(), f'{self.prim} is not duplicable'
+        return self._clone()
+
+    def _clone(self):
         res = type(self)(
             items=deepcopy(self.items),
             ptr=self.ptr,
